@@ -16,8 +16,13 @@ INNER = [
     [('V', ''), ('A2', ',secret')],
     [('V', ',inherit'), ('SL2', '')],
     [(('N', 'val', [('V', ''), ('V', ',public')]), '')],
+    # bodies mixing inheriting and explicitly tagged containers (element structs of arrays / slices)
+    [('A2', ''), ('V', ',public'), ('A2', ',public')],
+    [('V', ''), ('SL2', ',public')],
+    [('A2', ',secret'), ('V', '')],
 ]
-WRAP = ['val', 'ptr', 'emb']
+WRAP = ['val', 'ptr', 'emb', 'arr2', 'arr3', 'sl2']
+ARRLEN = {'arr2': 2, 'arr3': 3, 'sl2': 2}
 
 def field_variants(reduced):
     out = []
@@ -29,6 +34,10 @@ def field_variants(reduced):
     for w in WRAP:
         for bi, body in enumerate(INNER):
             if reduced and bi in (3,):
+                continue
+            if reduced and ((w in ARRLEN) != (bi >= 5)):
+                continue  # reduced set: the new bodies only as array elements, arrays only with the new bodies
+            if reduced and w == 'arr3':
                 continue
             for t in (TAGS_NEST if not reduced else ['', ',public']):
                 if bi == 3 and t not in (',public', ',secret'):
@@ -45,7 +54,7 @@ def shapes():
     for a in red:
         for b in red:
             S.append([a, b])
-    small = [('V', ''), ('V', ',public'), ('A2', ',secret'), (('N', 'val', INNER[2]), ',public'), (('N', 'ptr', INNER[1]), ''), ('SL2', ',public')]
+    small = [('V', ''), ('V', ',public'), ('A2', ',secret'), (('N', 'val', INNER[2]), ',public'), (('N', 'ptr', INNER[1]), ''), ('SL2', ',public'), (('N', 'arr3', INNER[5]), '')]
     for a in small:
         for b in small:
             for c in small:
@@ -68,8 +77,8 @@ class Gen:
         conflict = parent is not None and v != parent
         return v, conflict
 
-    def walk(self, tname, fields, parent_vis, path, leaves, alloc, st):
-        """emits the struct type tname; appends leaves (goexpr, vis) in declaration order; returns conflict flag"""
+    def walk(self, tname, fields, parent_vis, path, leaves, alloc, st, declare=True):
+        """emits the struct type tname (once); appends leaves (goexpr, vis) in declaration order; returns conflict flag"""
         lines = []
         conflict = False
         for i, (kind, tag) in enumerate(fields):
@@ -85,8 +94,19 @@ class Gen:
                 conflict = True
             if isinstance(kind, tuple):
                 _, wrap, body = kind
-                self.n += 1
-                sub = '%s_%s%d' % (tname, 'S', self.n)
+                sub = '%s_S%d' % (tname, i)
+                if wrap in ARRLEN:
+                    n = ARRLEN[wrap]
+                    subpath = path + '.' + fname
+                    if wrap == 'sl2':
+                        lines.append('\t%s []%s%s' % (fname, sub, gtag))
+                        alloc.append('%s = make([]%s, %d)' % (subpath, sub, n))
+                    else:
+                        lines.append('\t%s [%d]%s%s' % (fname, n, sub, gtag))
+                    for j in range(n):
+                        if self.walk(sub, body, vis, '%s[%d]' % (subpath, j), leaves if not omitted else [], alloc, st, declare and j == 0) and not omitted:
+                            conflict = True
+                    continue
                 if wrap == 'emb':
                     lines.append('\t%s%s' % (sub, gtag))
                     subpath = path + '.' + sub
@@ -98,7 +118,7 @@ class Gen:
                     lines.append('\t%s %s%s' % (fname, sub, gtag))
                     subpath = path + '.' + fname
                 sub_leaves = [] if omitted else leaves
-                if self.walk(sub, body, vis, subpath, sub_leaves if not omitted else [], alloc, st) and not omitted:
+                if self.walk(sub, body, vis, subpath, sub_leaves if not omitted else [], alloc, st, declare) and not omitted:
                     conflict = True
             else:
                 gotype = {'V': 'frontend.Variable', 'A2': '[2]frontend.Variable', 'SL2': '[]frontend.Variable', 'SL0': '[]frontend.Variable'}[kind]
@@ -113,7 +133,8 @@ class Gen:
                     elif kind in ('A2', 'SL2'):
                         leaves.append((p + '[0]', v))
                         leaves.append((p + '[1]', v))
-        self.types.append('type %s struct {\n%s\n}\n' % (tname, '\n'.join(lines)))
+        if declare:
+            self.types.append('type %s struct {\n%s\n}\n' % (tname, '\n'.join(lines)))
         return conflict
 
 def describe(fields):
